@@ -154,12 +154,16 @@ class SimNet:
             heapq.heappush(self.heap, (t, next(self.seq), d))
         # spoofing: a copy arrives from an address its sender does not own
         if not fair and self.spoof_filter is not None:
-            p, tag = self.spoof_filter(transport, data, dst)
+            res = self.spoof_filter(transport, data, dst)
+            p, tag = res[0], res[1]
             if p > 0 and self.ch.chance(p):
                 s = Datagram()
                 s.id = self.next_id
                 self.next_id += 1
                 s.data = data
+                if len(res) > 2 and res[2] is not None:
+                    # the forger may shorten its copy (an undersized Initial from an address nobody validated)
+                    s.data = res[2](self.ch, data)
                 s.src = self.spoofed_source(d.src)
                 s.dst = dst
                 s.sent_at = now
